@@ -37,6 +37,7 @@ type vfGWInst struct {
 	mon       any               // oracle-owned monitor object
 	monCanon  func(in *vfGWInst) string
 	lpubN     int
+	lpubDone  map[string]bool
 }
 
 func newVfGWInst(x *vfExec, sc *vfGWScenario, oracle vfGWOracle, extra ...Option) *vfGWInst {
@@ -67,6 +68,11 @@ func (in *vfGWInst) track(evFull string) {
 		delete(in.announced[f[1]], f[2])
 	case "disc":
 		in.announced[f[1]] = map[string]bool{}
+	case "lpub":
+		if in.lpubDone == nil {
+			in.lpubDone = map[string]bool{}
+		}
+		in.lpubDone[f[2]] = true
 	}
 }
 
@@ -107,6 +113,8 @@ func (in *vfGWInst) Enabled() []string {
 			ok = fmt.Sprint(cur) != f[2]
 		case "bl":
 			ok = !in.last.Blacklst[f[1]]
+		case "lpub":
+			ok = !in.lpubDone[f[2]] // labels of local publications are unique
 		}
 		if ok {
 			out = append(out, ev)
